@@ -270,6 +270,27 @@ func ruleRWParity(c *Ctx) {
 		cs = append(cs, cf)
 	}
 	c.minInstances("RWManager constructors", len(cs), 2)
+	// every successful construction has sized the file: no path from the entry to a return of a non-nil
+	// manager avoids the sizing call (a segment created by a run that died between open(O_CREATE) and the
+	// truncate is 0 bytes long; mapping it fails and a FileIO scan of it differs from a sized one)
+	for _, cf := range cs {
+		f := cf.fn
+		isTrunc := func(in ssa.Instruction) bool {
+			cc := callOf(in)
+			if cc == nil || cc.StaticCallee() == nil {
+				return false
+			}
+			cal := cc.StaticCallee()
+			return (c.P.inModule(cal) && cal.Name() == "Truncate") || cal.String() == "(*os.File).Truncate"
+		}
+		ei := errResultIndex(f)
+		succ := func(in ssa.Instruction) bool {
+			r, ok := in.(*ssa.Return)
+			return ok && (ei < 0 || classifyRetOperand(r, ei) != retNonNil)
+		}
+		w := findPath(f, nil, succ, isTrunc, nil)
+		c.check(w == nil, fnName(f), "every successful open has sized the segment", c.P.pos(f.Pos()), "", "the constructor can return a manager without having sized the file to its capacity: a segment left at 0 bytes by a crash between create and truncate is never grown again, mapping it fails and Open fails", c.witnessOf(w)...)
+	}
 	for i := 1; i < len(cs); i++ {
 		c.check(cs[i].open == cs[0].open && cs[0].open != "", fnName(cs[i].fn), "opens the segment like "+fnName(cs[0].fn), c.P.pos(cs[i].fn.Pos()), cs[0].open, "the two RWManager implementations open the file differently: "+cs[0].open+" vs "+cs[i].open)
 		c.check(cs[i].trunc == cs[0].trunc && cs[0].trunc != "", fnName(cs[i].fn), "extends the segment to its capacity like "+fnName(cs[0].fn), c.P.pos(cs[i].fn.Pos()), cs[0].trunc, "the two RWManager implementations size the file differently: "+cs[0].trunc+" vs "+cs[i].trunc)
